@@ -1,8 +1,8 @@
 (* C15 — Monte-Carlo simulations are reproducible with independent repetitions: property theorems only. *)
 From Coq Require Import ZArith QArith Qcanon List Lia Bool.
 From QV.Core Require Import OF QcOF Sums Mat Cplx Psd.
-From QV.Model Require Import QObj HermEmbed C15_Dataflow C15_PhysCheck C15_Depol.
-From QV.Proofs Require Import C15_Dataflow C15_PhysCheck C15_Depol C15_DepolPsd C15_InstrCP C15_Example.
+From QV.Model Require Import QObj HermEmbed C15_Dataflow C15_PhysCheck C15_Depol C15_PySem.
+From QV.Proofs Require Import C15_Dataflow C15_PhysCheck C15_Depol C15_DepolPsd C15_InstrCP C15_Example C15_PySem.
 Import ListNotations.
 Local Open Scope nat_scope.
 
@@ -100,6 +100,15 @@ Theorem C15_private_copies_race_free : forall sched seen regs,
   program_order seen sched = true -> (forall t, In t seen -> regs t = Some t) -> all_own (run_private regs sched).
 Proof. exact private_copies_race_free. Qed.
 Print Assumptions C15_private_copies_race_free.
+
+(* the same at the level of loss OBJECTS (the vocabulary of the translated execute_estimation, coq/gen/C15_Equiv.v): tasks are handed
+   object references; when every task that occurs loads its data into its own object, every program-ordered interleaving is race free *)
+Theorem C15_run_objs_private_race_free : forall reg_of sched seen regs,
+  (forall s, In s sched -> reg_of (step_task s) = Some (step_task s)) ->
+  program_order seen sched = true -> (forall t, In t seen -> regs (Some t) = Some t) ->
+  all_own (run_objs reg_of regs sched).
+Proof. exact run_objs_private_race_free. Qed.
+Print Assumptions C15_run_objs_private_race_free.
 
 (* ---------- the code as it was before the repairs (findings/C15-1.md, -2.md, -3.md): the property was FALSE ---------- *)
 
@@ -338,6 +347,17 @@ Proof.
     + exact pauli2_0th_identity. + exact pauli2_rest_traceless.
     + apply Qcleb_spec. vm_compute. reflexivity. + apply Qcleb_spec. vm_compute. reflexivity.
     + exact hs00_cp. Qed.
+
+(* object level: two tasks with private copies (loss_register of [fresh; fresh]) vs one shared object, same witness interleaving *)
+Example C15_example_run_objs :
+  let fresh := {| t_estimator := OFresh; t_loss := OFresh; t_algo := OFresh |} in
+  let shared := {| t_estimator := OFresh; t_loss := OShared; t_algo := OFresh |} in
+  let sched := [SetData 0; SetData 1; Optimize 0; Optimize 1]%nat in
+  (forall s, In s sched -> loss_register [fresh; fresh] (step_task s) = Some (step_task s)) /\ program_order [] sched = true /\
+  run_objs (loss_register [fresh; fresh]) (fun _ => None) sched = [(0, Some 0); (1, Some 1)]%nat /\
+  run_objs (loss_register [shared; shared]) (fun _ => None) sched = [(0, Some 1); (1, Some 1)]%nat.
+Proof. cbn zeta. split; [|repeat split].
+  intros s [<-|[<-|[<-|[<-|[]]]]]; reflexivity. Qed.
 
 (* a shared loss object and two threads: the witness interleaving; private copies give each task its own data *)
 Example C15_example_race :
